@@ -266,7 +266,7 @@ def extra_case(rnd):
         wd = dd.weekday()
         xs = [D.date(y, m, k) for k in range(1, dim(y, m) + 1) if D.date(y, m, k).weekday() == wd]
         x = xs[1]
-        r = blank('MONTHLY', rnd.choice([1, 1, 2])); r['dow'] = [[0, wd + 1]]; r['pos'] = rnd.choice([[2, 5, 6], [2, 5, 6, 7], [2, 6, 7], [-6, 2, 5, 6]]); ds = (x.year, x.month, x.day)
+        r = blank('MONTHLY', rnd.choice([1, 1, 2])); r['dow'] = [[0, wd + 1]]; r['pos'] = rnd.choice([[2, 5, 6], [2, 5, 6, 7], [2, 6, 7], [-6, 2, 5, 6], [2, 5, -1], [2, 6, -2, -1], [2, 5, 6, -1]]); ds = (x.year, x.month, x.day)
         if rnd.random() < 0.3:
             r = blank('YEARLY', 1); r['mon'] = [m]; r['dow'] = [[0, wd + 1]]; r['pos'] = rnd.choice([[2, 5, 6], [2, 6, 7, 8]])
     elif kind == 'mly_md_pos':
